@@ -35,7 +35,7 @@ func HarnessHarden() {
 	si := symChoice(len(sites))
 	site := sites[si]
 	hasSite := si != 0
-	origins := []string{"", "https://evil.example", symStringN(2)}
+	origins := []string{"", "https://evil.example", symStringN(2), "null", symStringN(4)}
 	oi := symChoice(len(origins))
 	origin := origins[oi]
 	methods := []string{"GET", "POST", "OPTIONS", "PATCH"}
